@@ -240,7 +240,7 @@ theorem recip_enclS (hS : BoostSound Bo P) {A : IVal K} {a r : FVal K}
       have hz' : Ivl.hasZero A = false := by simpa [Ivl.hasZero] using hz
       have h0 : a ≠ fin 0 := hin.ne_zero hz'
       rcases hr with rfl | ⟨h, _⟩
-      · exact Or.inr (hS.oneDiv _ _ hin h0)
+      · exact Or.inr (inB_of (hS.oneDiv _ _ hin h0))
       · exact absurd h h0
 
 /-! ### pow / nth_root with an integer constant exponent -/
@@ -297,7 +297,7 @@ theorem pow_enclS_partial (hS : BoostSound Bo P) {A B : IVal K} {a b r : FVal K}
         exact hin.ne_zero (by simpa [Ivl.hasZero] using this)
       rcases hr with rfl | ⟨h0, ⟨k', hk', hlt⟩, _⟩
       · rw [hp]
-        exact Or.inr (hS.powi _ _ _ hin hzero hnz)
+        exact Or.inr (inB_of (hS.powi _ _ _ hin hzero hnz))
       · rw [he] at hk'
         cases hk'
         exact absurd h0 (hnz hlt)
